@@ -133,6 +133,24 @@ def edit_cases(rng, n, maxcmds=8, screen=0):
         out.append(case(f, b"".join(parts), rows, cols, screen))
     return out
 
+def u8_edit_cases(rng, n):
+    """C16: character-wise commands and :s lines over lines dense in multi-byte characters"""
+    import gen_ex
+    out = []
+    for i in range(n):
+        f = ("\n".join(gen_ex.u8_line(rng) for _ in range(1 + rng.below(4))) + "\n").encode()
+        parts = []
+        for _ in range(1 + rng.below(7)):
+            k = rng.below(10)
+            if k < 4: parts.append(motion(rng))
+            elif k < 8: parts.append(edit(rng))
+            else:
+                parts.append((":%ss/%s/%s/%s\n" % (rng.choice(["", "%"]), rng.choice(gen_ex.U8_PATS), rng.choice(gen_ex.U8_REPS), rng.choice(["", "g"]))).encode())
+        ks = b"".join(parts)
+        if b"\x16" in ks: ks = ks.replace(b"\x16", b"")
+        out.append(case(f, ks, 24, 80))
+    return out
+
 U8 = ["é", "ß", "中", "文", "ل", "ا", "م", "\u0301", "\u200c", "𝄞", "a", "Z", "ｗ"]
 def junk_keys(rng, n):
     """arbitrary keys whose text is valid UTF-8: ASCII incl. control characters, and whole multi-byte characters"""
